@@ -37,7 +37,7 @@ META = dict(
               'als and for the dominance of the solve call over the per-angle calls; '
               'symbolic 2 x 2 matrix algebra (modulo cos^2 + sin^2 = 1) of the sphere'
               ' limit through _run_tmat / raw_scat_matrs / raw_fields'
-              "; sibling cross-check of the constructors' size guards against Sphere's, size guard of the hand-off; acceptance table evaluated with the uniformity tests as atoms (layered spheres refused by can_handle and by the hand-off)",
+              "; sibling cross-check of the constructors' size guards against Sphere's, size guard of the hand-off evaluated per size (each size at zero and at infinity, the others in range); lens-integrand agreement and parity rules shared with C08 / C05; acceptance table evaluated with the uniformity tests as atoms (layered spheres refused by can_handle and by the hand-off)",
     level_text='Exhaustive over the program units reachable from the f2py entry '
                'points (tmatrix_f: ampld; mie_f: every routine the wrappers '
                'call): every STOP / EXIT reachable from Python is enumerated and '
